@@ -370,6 +370,46 @@ pub fn worker(w: &mut Worker) {
             }
         }
     }
+    // long periodic texts of every threshold size, with periods (7, 11, 13 bytes, one with multi-byte
+    // characters) that do not divide any power of two or ten: occurrences of the needle lie across
+    // every position a block-wise implementation might cut at
+    {
+        let sizes: Vec<usize> = crate::util::with_thresholds_usize(tier.pick(vec![300, 6000, 12_000, 24_000, 70_000], vec![300, 6000, 12_000, 24_000, 70_000, 300_000]), tier.pick(65_536, 262_144));
+        for &n in &sizes {
+            for unit in ["abcdefg", "abcdefghijk", "aébcdéfghij", "ab"] {
+                let mut t = String::new();
+                while t.len() < n {
+                    t.push_str(unit);
+                }
+                let chars: Vec<char> = unit.chars().collect();
+                let straddle: String = format!("{}{}", chars[chars.len() - 1], chars[0]);
+                let mid: String = chars[1..chars.len().min(4)].iter().collect();
+                for needle in [unit.to_string(), straddle, mid] {
+                    for to in ["", "X", "<->"] {
+                        r.case("replace", vec![t.clone(), needle.clone(), to.to_string()], false, vec![s(t.replace(needle.as_str(), to))], true);
+                    }
+                    r.case("indexof", vec![t.clone(), needle.clone()], false, vec![Obs::Val(t.find(needle.as_str()).map(|i| i.to_string()))], true);
+                    r.case("last_indexof", vec![t.clone(), needle.clone()], false, vec![Obs::Val(t.rfind(needle.as_str()).map(|i| i.to_string()))], true);
+                    r.case("contains", vec![t.clone(), needle.clone()], false, vec![b(true)], true);
+                    r.case("ends_with", vec![t.clone(), needle.clone()], false, vec![b(t.ends_with(needle.as_str()))], true);
+                    let pieces: Vec<String> = t.split(needle.as_str()).map(|x| x.to_string()).collect();
+                    r.case("split", vec![t.clone(), needle.clone()], true, vec![Obs::List(pieces)], true);
+                }
+                r.case("length", vec![t.clone()], false, vec![s(t.len().to_string())], true);
+                r.case("uppercase", vec![t.clone()], false, vec![s(t.to_uppercase())], true);
+                r.case("concat", vec![t.clone(), t.clone()], false, vec![s(format!("{}{}", t, t))], true);
+                let half = {
+                    let mut h = t.len() / 2;
+                    while !t.is_char_boundary(h) {
+                        h -= 1;
+                    }
+                    h
+                };
+                r.case("substring", vec![t.clone(), half.to_string()], false, vec![s(&t[half..])], true);
+                r.case("substring", vec![t.clone(), "0".into(), half.to_string()], false, vec![s(&t[..half])], true);
+            }
+        }
+    }
     // concat with 0..3 arguments
     for a in &needles {
         for bb in &needles {
@@ -577,7 +617,7 @@ pub fn crash_sig(_case: &Value, kind: &str) -> String {
     kind.to_string()
 }
 
-pub const RULE: &str = "every text up to the length bound over {a b SP e-acute emoji} x every needle up to length 2 through length/strlen/is_empty/trim*/uppercase/lowercase/indexof/last_indexof/contains/starts_with/ends_with/equals/eq/concat/replace/split; substring with every index and index pair from -(len+2) to len+2 plus non-numeric junk; less_than/greater_than over a 21x21 number pool (incl. -0, -0.0, 0.0, 00, 1.0); calc over n op m, the same as one argument, and ( n op m ) op2 k with exactly representable results; range over the grid and non-numeric arguments. Oracle: Rust's own string operations in byte units, documented substring semantics (error result for out-of-range, non-boundary or non-numeric indexes; an index equal to the text length is left open), numeric order, exact arithmetic. Non-trivial: multi-byte text, negative/out-of-range/non-numeric index, non-integer number. states = distinct (command, result class, arity); transitions = real command invocations; 14 further texts whose case mapping or trimming is not character by character (final sigma, sharp s, dotted capital I, ligature, digraphs, combining mark, no-break / ideographic / em space, TAB and LF). Scale cases: texts of 300/70000 (thorough 1000000) bytes built from a one- and a multi-byte block around a marker: length, indexof, last_indexof, contains, starts/ends_with, substring forms, replace, split, uppercase, trim; calc / less_than / greater_than / equals at the edge of the exactly representable integers (2^53). Results that a condition would read as false (0, false, no, their capitals) or as syntax (and, or, not, parentheses) arrived at through concat at every split point, trim*, case mapping, substring and replace. calc domain: 36 expressions that are no arithmetic (comparisons, booleans, tuples, assignments, empty, texts, dangling operators, unknown names, division by zero, function calls), each as one argument and split at blanks: the result is a number or the error result. Three passes over 300 / 5000 (thorough 70000) distinct inputs of calc (two forms), less_than, uppercase, replace, concat and substring: the later passes give what the first gave";
+pub const RULE: &str = "every text up to the length bound over {a b SP e-acute emoji} x every needle up to length 2 through length/strlen/is_empty/trim*/uppercase/lowercase/indexof/last_indexof/contains/starts_with/ends_with/equals/eq/concat/replace/split; substring with every index and index pair from -(len+2) to len+2 plus non-numeric junk; less_than/greater_than over a 21x21 number pool (incl. -0, -0.0, 0.0, 00, 1.0); calc over n op m, the same as one argument, and ( n op m ) op2 k with exactly representable results; range over the grid and non-numeric arguments. Oracle: Rust's own string operations in byte units, documented substring semantics (error result for out-of-range, non-boundary or non-numeric indexes; an index equal to the text length is left open), numeric order, exact arithmetic. Non-trivial: multi-byte text, negative/out-of-range/non-numeric index, non-integer number. states = distinct (command, result class, arity); transitions = real command invocations; 14 further texts whose case mapping or trimming is not character by character (final sigma, sharp s, dotted capital I, ligature, digraphs, combining mark, no-break / ideographic / em space, TAB and LF). Scale cases: texts of 300/70000 (thorough 1000000) bytes built from a one- and a multi-byte block around a marker: length, indexof, last_indexof, contains, starts/ends_with, substring forms, replace, split, uppercase, trim; calc / less_than / greater_than / equals at the edge of the exactly representable integers (2^53). Results that a condition would read as false (0, false, no, their capitals) or as syntax (and, or, not, parentheses) arrived at through concat at every split point, trim*, case mapping, substring and replace. calc domain: 36 expressions that are no arithmetic (comparisons, booleans, tuples, assignments, empty, texts, dangling operators, unknown names, division by zero, function calls), each as one argument and split at blanks: the result is a number or the error result. Three passes over 300 / 5000 (thorough 70000) distinct inputs of calc (two forms), less_than, uppercase, replace, concat and substring: the later passes give what the first gave Periodic long texts: periods of 7, 11 and 13 bytes (one with multi-byte characters) and 2, every threshold size up to 70000 (thorough 300000) bytes, three needles each (the period, the two characters across its seam, three from its middle) through replace (3 replacements), indexof, last_indexof, contains, ends_with, split, and length, uppercase, concat, substring at the middle: against the plain string operation.";
 pub const ASSUMPTIONS: &[&str] = &["arguments are handed to the commands as already-bound values (run_instruction), so the parser is not in the loop", "division is only generated where the quotient is exact; number spellings such as 1e3 or ' 1' may be rejected or accepted but never mis-ordered"];
 pub const EXHAUSTIVE: bool = true;
 pub const WALL_CAP_S: (u64, u64) = (50, 1500);
